@@ -677,6 +677,18 @@ thread_local! {
     static SIDE_DIGEST: std::cell::Cell<u64> = const { std::cell::Cell::new(0) };
 }
 
+thread_local! {
+    /// set while a case runs under the cross-layout comparison of C04: observations whose value may legitimately depend
+    /// on where the contents wrap (how far a search got before its predicate panicked) are then left out of the trace
+    static LAYOUT_NEUTRAL: std::cell::Cell<bool> = const { std::cell::Cell::new(false) };
+}
+pub fn set_layout_neutral(on: bool) {
+    LAYOUT_NEUTRAL.with(|c| c.set(on));
+}
+pub(crate) fn layout_neutral() -> bool {
+    LAYOUT_NEUTRAL.with(|c| c.get())
+}
+
 /// Adds a number to the side digest of the current op.
 pub(crate) fn side_dig(v: u64) {
     SIDE_DIGEST.with(|c| c.set((c.get() ^ v ^ 0x9E37_79B9_7F4A_7C15).wrapping_mul(0x100000001b3)));
